@@ -73,6 +73,7 @@ package mcp
 //@   check encodable
 //@   modifies audits
 //@   calls encoding/json.(*Encoder).Encode requires [C20:record_has_required_keys] "timestamp" in event && "principal" in event && "role" in event && "tool" in event && "input_hash" in event && "result" in event && "duration_ms" in event
+//@   calls encoding/json.(*Encoder).Encode requires [C20:the_record_names_the_configured_principal_the_effective_role_the_tool_and_the_outcome] event["principal"] == trim(s.Principal) && event["role"] == effRole(s.Role) && event["tool"] == name && event["result"] == result
 //@   ensures [C20:one_record_iff_mutating] audits == ite(name in MUTATING && s != nil && s.AuditWriter != nil, old(audits) + 1, old(audits))
 
 //@ func (*Server).tool*
